@@ -57,6 +57,14 @@ pub(crate) fn fits_empty_arena(
 	true
 }
 
+/// Arena size that takes entries with the given (key, value) lengths whatever tower heights are
+/// drawn for their nodes.
+pub(crate) fn arena_size_for(entries: impl Iterator<Item = (usize, usize)>) -> u64 {
+	entries.fold(EMPTY_ARENA_SIZE, |used, (key_len, value_len)| {
+		used + MAX_NODE_SIZE as u64 + key_len as u64 + value_len as u64 + 7
+	})
+}
+
 /// Precomputed probabilities for random height generation
 fn probabilities() -> &'static [u32; MAX_HEIGHT] {
 	static PROBABILITIES: std::sync::OnceLock<[u32; MAX_HEIGHT]> = std::sync::OnceLock::new();
